@@ -7,7 +7,13 @@ needs = sys.argv[3] if len(sys.argv) > 3 else ""
 src = "/tmp/seed/%s-out/%s" % (pid, n)
 dst = "/verif/seeded/%s-%s" % (pid, n)
 conf = json.load(open(os.path.join(src, "confirm.json")))
-ok = conf.get("applies") and conf.get("build_rc") == 0 and conf.get("tests_fail") == 0 and conf.get("tests_pass", 0) >= 10 \
+def _passes(f):
+    f = os.path.join(src, f)
+    return sum(1 for l in open(f) if l.startswith("PASS:")) if os.path.exists(f) else 0
+# tests that failed in the first run (IPC tests are flaky while several suites run at once) are re-run once by
+# seedconfirm.sh: count the passes of both runs
+conf["tests_pass"] = _passes("confirm-tests.log") + _passes("confirm-tests2.log")
+ok = conf.get("applies") and conf.get("build_rc") == 0 and conf.get("tests_fail") == 0 and conf.get("tests_pass", 0) >= 11 \
     and conf.get("demo_rc_clean") == 0 and conf.get("demo_rc_changed") not in (0, None)
 if not ok:
     print("NOT confirmed:", conf); sys.exit(1)
